@@ -2,11 +2,16 @@
 (* The moq command line against the file system (main.go), one action per    *)
 (* step of run(), each system-call shaped step with its failure twin:        *)
 (*                                                                           *)
-(*   CheckArgs -> RemoveOut (-rm and -out only; ENOENT tolerated)            *)
+(*   ParseFlags (flag.Parse: an unknown flag exits 2 with the usage, -h      *)
+(*      exits 0 with the usage, -version prints the version and exits 0 -    *)
+(*      all three before anything else happens, -rm included)                *)
+(*   -> CheckArgs (fewer than two positional arguments: exit 1)              *)
+(*   -> RemoveOut (-rm and -out only; ENOENT tolerated)                      *)
 (*   -> Load (go/packages on the source dir; sees the -out file if it is a   *)
 (*      .go file of that package and still there)                            *)
 (*   -> Lookup k-th interface argument, for every k, before anything is      *)
-(*      rendered -> Render+Format -> Write                                   *)
+(*      rendered (a mock name requested twice is rejected here too)          *)
+(*      -> Render+Format -> Write                                            *)
 (*        stdout mode: one write to fd 1                                     *)
 (*        file mode  : MkdirAll(parent) ; open(O_TRUNC) ; write ; close      *)
 (*   every failure: diagnostic on stderr, usage on stdout, exit 1            *)
@@ -31,16 +36,18 @@ Priors   == {"absent", "own", "ownnoop", "ownlong", "ownstub", "owncase", "older
 Mods     == {"tidy", "stale"}   \* stale: go.mod lacks a requirement the go command could add if it were allowed to write
 OutModes == {"stdout", "file", "newdir", "otherpkg"}
     \* newdir: -out below directories that do not exist yet; otherpkg: -pkg mocks -out mocks/... in an existing directory
-ArgKinds == {"ok", "ok2", "okalias", "missing1", "missing2", "notiface2", "badalias", "none"}
+ArgKinds == {"ok", "ok2", "okalias", "missing1", "missing2", "notiface2", "badalias", "dup", "one", "none"}
+    \* one: the source directory only, no interface; dup: one mock name requested twice (Store Other:StoreMock); rejected while the arguments are looked up
 Faults   == {"none", "stdoutfull", "write"}
+FlagKinds == {"none", "version", "help", "bad"}   \* -version / -h / an undefined flag in front of everything else
 
 (* scenarios that make sense together *)
 Scenarios ==
-    { [prior |-> p, rm |-> r, out |-> o, args |-> a, fault |-> f, mod |-> m] :
-        p \in Priors, r \in BOOLEAN, o \in OutModes, a \in ArgKinds, f \in Faults, m \in Mods }
+    { [prior |-> p, rm |-> r, out |-> o, args |-> a, fault |-> f, mod |-> m, flag |-> g] :
+        p \in Priors, r \in BOOLEAN, o \in OutModes, a \in ArgKinds, f \in Faults, m \in Mods, g \in FlagKinds }
 
 Sane(s) ==
-    /\ (s.out = "stdout") => (s.prior = "absent" /\ ~s.rm /\ s.fault \in {"none", "stdoutfull"})
+    /\ (s.out = "stdout") => (s.prior = "absent" /\ s.fault \in {"none", "stdoutfull"})   \* -rm without -out: nothing to remove
     /\ (s.out # "stdout") => s.fault \in {"none", "write"}
     /\ (s.out = "newdir") => s.prior \in {"absent", "parentfile"}
     /\ (s.out = "file") => s.prior \notin {"parentfile", "owncase"}
@@ -52,6 +59,9 @@ Sane(s) ==
     /\ (s.fault # "none") => (s.args \in {"ok", "ok2"} /\ s.out # "otherpkg")
     /\ (s.mod = "stale") => (s.prior = "absent" /\ s.fault = "none" /\ s.args = "ok")
     /\ (s.prior \in {"ownnoop", "ownlong"}) => (s.out = "file" /\ s.args \in {"ok", "ok2"})
+    /\ (s.flag # "none") => (s.fault = "none" /\ s.mod = "tidy" /\ s.args \in {"ok", "none", "missing1"}
+                              /\ s.prior \in {"absent", "own", "garbage"} /\ s.out \in {"stdout", "file"})
+    /\ (s.args = "one") => (s.flag = "none" /\ s.fault = "none" /\ s.mod = "tidy" /\ s.prior \in {"absent", "own"} /\ s.out \in {"stdout", "file"})
 
 VARIABLES sc,        \* the scenario
           pc,        \* control point of run()
@@ -60,27 +70,38 @@ VARIABLES sc,        \* the scenario
           srcOnStdout,  \* generated Go source reached fd 1: "none" | "full"
           usage,     \* usage text printed on stdout
           stderr,    \* diagnostic class printed: "" | stage name
+          version,   \* the version line was printed on stdout
           exit,      \* -1 while running
           wrote,     \* number of write calls carrying generated source
           touchedOther  \* something else in the tree was modified
 
-vars == <<sc, pc, outSt, dirsMade, srcOnStdout, usage, stderr, exit, wrote, touchedOther>>
+vars == <<sc, pc, outSt, dirsMade, srcOnStdout, usage, stderr, version, exit, wrote, touchedOther>>
 
 Init == /\ sc \in {s \in Scenarios : Sane(s)}
-        /\ pc = "checkargs"
+        /\ pc = "parse" /\ version = FALSE
         /\ outSt = IF sc.prior \in {"absent", "parentfile"} THEN "absent" ELSE IF sc.prior = "dir" THEN "dir" ELSE "prior"
         /\ dirsMade = FALSE /\ srcOnStdout = "none" /\ usage = FALSE /\ stderr = "" /\ exit = -1 /\ wrote = 0
         /\ touchedOther = FALSE
 
 Fail(stage) == /\ stderr' = stage /\ usage' = TRUE /\ exit' = 1 /\ pc' = "done"
 
+Informational == sc.flag \in {"version", "help"}
+
+ParseFlags ==
+    /\ pc = "parse"
+    /\ CASE sc.flag = "bad"     -> stderr' = "flag" /\ usage' = TRUE /\ exit' = 2 /\ pc' = "done" /\ UNCHANGED version
+         [] sc.flag = "help"    -> stderr' = "defaults" /\ usage' = TRUE /\ exit' = 0 /\ pc' = "done" /\ UNCHANGED version
+         [] sc.flag = "version" -> version' = TRUE /\ exit' = 0 /\ pc' = "done" /\ UNCHANGED <<stderr, usage>>
+         [] OTHER               -> pc' = "checkargs" /\ UNCHANGED <<stderr, usage, exit, version>>
+    /\ UNCHANGED <<sc, outSt, dirsMade, srcOnStdout, wrote, touchedOther>>
+
 InPlaceGo == sc.out # "stdout"   \* the -out file lives in the source package directory
 
 CheckArgs ==
     /\ pc = "checkargs"
-    /\ IF sc.args = "none"
-       THEN Fail("usage") /\ UNCHANGED <<sc, outSt, dirsMade, srcOnStdout, wrote, touchedOther>>
-       ELSE pc' = "remove" /\ UNCHANGED <<sc, outSt, dirsMade, srcOnStdout, usage, stderr, exit, wrote, touchedOther>>
+    /\ IF sc.args \in {"none", "one"}
+       THEN Fail("usage") /\ UNCHANGED <<sc, version, outSt, dirsMade, srcOnStdout, wrote, touchedOther>>
+       ELSE pc' = "remove" /\ UNCHANGED <<sc, version, outSt, dirsMade, srcOnStdout, usage, stderr, exit, wrote, touchedOther>>
 
 RemoveOut ==
     /\ pc = "remove"
@@ -90,7 +111,7 @@ RemoveOut ==
               [] outSt = "absent" /\ sc.prior = "parentfile" -> Fail("remove") /\ UNCHANGED outSt                            \* ENOTDIR
               [] outSt = "prior" -> pc' = "load" /\ outSt' = "absent" /\ UNCHANGED <<stderr, usage, exit>>
               [] outSt = "dir"   -> Fail("remove") /\ UNCHANGED outSt                                                         \* directory not empty
-    /\ UNCHANGED <<sc, dirsMade, srcOnStdout, wrote, touchedOther>>
+    /\ UNCHANGED <<sc, version, dirsMade, srcOnStdout, wrote, touchedOther>>
 
 (* the package loads unless a stale or garbled .go file is still in it *)
 Loadable == /\ ~(InPlaceGo /\ sc.out = "file" /\ outSt = "prior" /\ sc.prior \in {"older", "garbage", "empty"})
@@ -99,51 +120,52 @@ Loadable == /\ ~(InPlaceGo /\ sc.out = "file" /\ outSt = "prior" /\ sc.prior \in
 Load ==
     /\ pc = "load"
     /\ IF Loadable THEN pc' = "lookup" /\ UNCHANGED <<stderr, usage, exit>> ELSE Fail("load")
-    /\ UNCHANGED <<sc, outSt, dirsMade, srcOnStdout, wrote, touchedOther>>
+    /\ UNCHANGED <<sc, version, outSt, dirsMade, srcOnStdout, wrote, touchedOther>>
 
 Lookup ==
     /\ pc = "lookup"
     /\ CASE sc.args \in {"missing1", "missing2"} -> Fail("notfound")
          [] sc.args = "notiface2" -> Fail("notiface")
+         [] sc.args = "dup" -> Fail("dupname")
          [] OTHER -> pc' = "format" /\ UNCHANGED <<stderr, usage, exit>>
-    /\ UNCHANGED <<sc, outSt, dirsMade, srcOnStdout, wrote, touchedOther>>
+    /\ UNCHANGED <<sc, version, outSt, dirsMade, srcOnStdout, wrote, touchedOther>>
 
 Format ==
     /\ pc = "format"
     /\ IF sc.args = "badalias" THEN Fail("format") ELSE pc' = "write" /\ UNCHANGED <<stderr, usage, exit>>
-    /\ UNCHANGED <<sc, outSt, dirsMade, srcOnStdout, wrote, touchedOther>>
+    /\ UNCHANGED <<sc, version, outSt, dirsMade, srcOnStdout, wrote, touchedOther>>
 
 WriteStdout ==
     /\ pc = "write" /\ sc.out = "stdout"
     /\ IF sc.fault = "stdoutfull"
        THEN Fail("io") /\ UNCHANGED <<srcOnStdout, wrote>>
        ELSE srcOnStdout' = "full" /\ wrote' = wrote + 1 /\ exit' = 0 /\ pc' = "done" /\ UNCHANGED <<stderr, usage>>
-    /\ UNCHANGED <<sc, outSt, dirsMade, touchedOther>>
+    /\ UNCHANGED <<sc, version, outSt, dirsMade, touchedOther>>
 
 Mkdirs ==
     /\ pc = "write" /\ sc.out # "stdout"
     /\ IF sc.prior = "parentfile"
        THEN Fail("io") /\ UNCHANGED dirsMade
        ELSE pc' = "open" /\ dirsMade' = (sc.out = "newdir") /\ UNCHANGED <<stderr, usage, exit>>
-    /\ UNCHANGED <<sc, outSt, srcOnStdout, wrote, touchedOther>>
+    /\ UNCHANGED <<sc, version, outSt, srcOnStdout, wrote, touchedOther>>
 
 OpenTrunc ==
     /\ pc = "open"
     /\ IF outSt = "dir"
        THEN Fail("io") /\ UNCHANGED outSt
        ELSE pc' = "filewrite" /\ outSt' = "empty" /\ UNCHANGED <<stderr, usage, exit>>
-    /\ UNCHANGED <<sc, dirsMade, srcOnStdout, wrote, touchedOther>>
+    /\ UNCHANGED <<sc, version, dirsMade, srcOnStdout, wrote, touchedOther>>
 
 WriteFile ==
     /\ pc = "filewrite"
     /\ IF sc.fault = "write"
        THEN Fail("io") /\ UNCHANGED <<outSt, wrote>>
        ELSE outSt' = "new" /\ wrote' = wrote + 1 /\ exit' = 0 /\ pc' = "done" /\ UNCHANGED <<stderr, usage>>
-    /\ UNCHANGED <<sc, dirsMade, srcOnStdout, touchedOther>>
+    /\ UNCHANGED <<sc, version, dirsMade, srcOnStdout, touchedOther>>
 
 Terminated == pc = "done" /\ UNCHANGED vars
 
-Next == CheckArgs \/ RemoveOut \/ Load \/ Lookup \/ Format \/ WriteStdout \/ Mkdirs \/ OpenTrunc \/ WriteFile \/ Terminated
+Next == ParseFlags \/ CheckArgs \/ RemoveOut \/ Load \/ Lookup \/ Format \/ WriteStdout \/ Mkdirs \/ OpenTrunc \/ WriteFile \/ Terminated
 
 Spec     == Init /\ [][Next]_vars
 FairSpec == Spec /\ WF_vars(Next)
@@ -161,22 +183,28 @@ AllOrNothing ==
            \/ outSt = "absent" /\ (sc.prior \in {"absent", "parentfile"} \/ sc.rm) \* nothing there before, or -rm: just gone
 (* C17: on success exactly the complete file, once; parents created *)
 SuccessComplete ==
-    (Done /\ exit = 0) =>
+    (Done /\ exit = 0 /\ ~Informational) =>
         /\ wrote = 1 /\ stderr = ""
         /\ (sc.out = "stdout") => (srcOnStdout = "full" /\ outSt = "absent")
         /\ (sc.out # "stdout") => (outSt = "new" /\ srcOnStdout = "none")
         /\ (sc.out = "newdir") => dirsMade
+(* -version and -h do nothing else, whatever else the command line says *)
+InfoTouchesNothing ==
+    (Done /\ Informational) =>
+        /\ exit = 0 /\ wrote = 0 /\ srcOnStdout = "none" /\ ~dirsMade
+        /\ outSt = (IF sc.prior = "absent" THEN "absent" ELSE "prior")
+        /\ (sc.flag = "version") <=> version
 (* C18 *)
 OnlyOutTouched == ~touchedOther /\ (sc.out = "stdout" => outSt = "absent")
 (* C19 *)
-ExitsCleanly == Done => exit \in {0, 1}
+ExitsCleanly == Done => (exit \in {0, 1, 2} /\ (exit = 2 <=> sc.flag = "bad"))
 Terminates == <>Done
 (* C15 (second half): with -rm the outcome does not depend on the prior      *)
 (* content: success whenever the same scenario with prior = absent succeeds  *)
 RmMakesPriorIrrelevant ==
-    (Done /\ sc.rm /\ sc.out = "file" /\ sc.prior \in {"own", "ownnoop", "ownlong", "ownstub", "older", "garbage", "empty"} /\ sc.fault = "none" /\ sc.args \in {"ok", "ok2"}) => (exit = 0 /\ outSt = "new")
+    (Done /\ sc.rm /\ sc.out = "file" /\ sc.prior \in {"own", "ownnoop", "ownlong", "ownstub", "older", "garbage", "empty"} /\ sc.fault = "none" /\ sc.args \in {"ok", "ok2"} /\ sc.flag = "none") => (exit = 0 /\ outSt = "new")
 
 Emit == (EmitJson /\ Done) =>
           PrintT("CLI " \o ToJson([sc |-> sc, exit |-> exit, outSt |-> outSt, srcOnStdout |-> srcOnStdout, stderr |-> stderr,
-                                   usage |-> usage, dirsMade |-> dirsMade, wrote |-> wrote]))
+                                   usage |-> usage, dirsMade |-> dirsMade, wrote |-> wrote, version |-> version]))
 =============================================================================
